@@ -226,9 +226,15 @@ def set_lines(top, enums, groups):
                 members.append((enums[ty], hidden))
     else:
         members.append((top, False))
+    claimed = set()
     for (e, hidden) in members:
+        dup = {c.name() for c in e.cmds} & claimed
+        claimed |= {c.name() for c in e.cmds}
         for c in e.cmds:
             cl = cmd_lines(c, enums)
+            if c.name() in dup:
+                # an earlier member of the group answers this name: no expectation
+                cl = [(l, False) for (l, _) in cl]
             lines.extend(cl[:11] if len(e.cmds) <= 4 else cl[:5])
             lines.append(("help " + c.name(), False))
             sub = enums[c.sub] if c.sub else (enums[c.tuple_sub] if c.tuple_sub else None)
@@ -297,13 +303,17 @@ def random_fields(rng):
     return []
 
 
-def random_enum(rng, ident, n, multibyte=False, enums=None, depth=0):
+def random_enum(rng, ident, n, multibyte=False, enums=None, depth=0, taken=None):
+    """taken: names already used by other members of the same group (a name claimed by two members
+    of a group would be answered by the first one only; such declarations are not generated)"""
     names = []
     while len(names) < n:
-        nm = random_name(rng, names, multibyte and rng.below(2) == 0)
+        nm = random_name(rng, names + sorted(taken or []), multibyte and rng.below(2) == 0)
         if nm is None:
             break
         names.append(nm)
+    if taken is not None:
+        taken.update(names)
     cmds = []
     for i, nm in enumerate(names):
         sub = None
@@ -476,17 +486,19 @@ def build_family(seed):
         n = [3, 5, 8, 12, 2][i % 5]
         tops.append(add(random_enum(rng, ident, n, multibyte=(i == 2), enums=enums)))
     # one random group over two of the random enums
-    add(random_enum(rng, "S18A", 4, enums=enums))
-    add(random_enum(rng, "S18B", 4, enums=enums))
+    taken18 = set()
+    add(random_enum(rng, "S18A", 4, enums=enums, taken=taken18))
+    add(random_enum(rng, "S18B", 4, enums=enums, taken=taken18))
     tops.append(Group("S18", [("A", "S18A", False), ("B", "S18B", rng.below(3) == 0)]))
     if seed != 0:
         # non-default families: more random structure (groups of 2-4 members with random hidden
         # flags, multi-byte names, nested sub-commands)
         for g in range(4):
             members = []
+            taken = set()
             for m in range(2 + rng.below(3)):
                 ident = f"R{g}M{m}"
-                add(random_enum(rng, ident, 1 + rng.below(5), multibyte=(rng.below(3) == 0), enums=enums))
+                add(random_enum(rng, ident, 1 + rng.below(5), multibyte=(rng.below(3) == 0), enums=enums, taken=taken))
                 members.append((f"V{m}", ident, rng.below(4) == 0))
             if all(h for (_, _, h) in members):
                 members[0] = (members[0][0], members[0][1], False)
